@@ -56,7 +56,9 @@ FLAVOURS = {
              "-O1 -g -fno-omit-frame-pointer -fsanitize=memory -fsanitize-memory-track-origins=1 -Wno-unknown-warning-option -Wno-gnu-zero-variadic-macro-arguments",
              "-fsanitize=memory"),
 }
+FLAVOURS["cov"] = ("-O0 -g --coverage -DDEBUG=true", "-O1 -g -DVH_COV=1", "--coverage")  # tools/coverage.py only
 FLAVOUR_CC = {"msan": "clang"}
+KEEP_OBJ = ("cov",)  # gcov needs the .gcno files next to the objects
 
 STRIP_PREFIXES = ("-O", "-flto", "-fno-fat-lto-objects", "-g", "-fsanitize", "-fno-sanitize", "-DNDEBUG", "-DDEBUG")
 
@@ -213,17 +215,34 @@ def ensure(flavour, L=2048):
                 if (a.startswith("-I") or a.startswith("-D")) and a not in incs:
                     incs.append(a)
         hobjs = []
+        narrow = []
         for fn in sorted(os.listdir(HARNESS)):
             if not fn.endswith(".c"):
                 continue
             o = os.path.join(objdir, "h_" + fn[:-2] + ".o")
             hobjs.append(o)
             extra = []
-            jobs.append(([cc, "-std=gnu11", "-Wall", "-Wextra", "-Wno-format-truncation", "-Wno-unused-parameter"] + shlex.split(hflags) + incs +
+            is_narrow = fn.startswith("d_arith_n")
+            (narrow if is_narrow else jobs).append(([cc, "-std=gnu11", "-Wall", "-Wextra", "-Wno-format-truncation", "-Wno-unused-parameter"] + shlex.split(hflags) + incs +
                          ["-I" + HARNESS, "-DVH_REPO_SRC=\"%s\"" % os.path.join(REPO, "src"), "-DVH_L=%d" % L,
                           "-DVH_MEMUTILS_C=\"%s\"" % os.path.join(REPO, "src", "cbor", "internal", "memory_utils.c")] + extra +
                          ["-c", os.path.join(HARNESS, fn), "-o", o], objdir))
         _compile_many(jobs)
+        # the narrow-width units re-compile the tree's own memory_utils.c with size_t redefined: whatever that file
+        # defines must stay private to the unit (any function added there would otherwise clash with the real
+        # object), and a tree whose file does not survive the redefinition costs only C20's narrow stage
+        for argv, cwd in narrow:
+            rc, out = _run(argv, cwd=cwd)
+            if rc != 0:
+                log("narrow-width unit does not compile for this tree; building its stub instead:\n" + out[-800:])
+                rc, out = _run(argv[:1] + ["-DVH_NARROW_STUB=1"] + argv[1:], cwd=cwd)
+                if rc != 0:
+                    raise BuildError("compile failed: %s\n%s" % (" ".join(argv), out[-4000:]))
+            o = argv[-1]
+            pref = "n8_" if "d_arith_n8" in o else "n16_"
+            rc, out = _run(["objcopy", "--keep-global-symbol=" + pref + "sweep", o])
+            if rc != 0:
+                raise BuildError("objcopy failed:\n" + out[-2000:])
         tmp = exe + ".tmp"
         if flavour == "pic-so":
             so = os.path.join(bdir, "libcbor-picso-%d.so" % L)
@@ -237,7 +256,8 @@ def ensure(flavour, L=2048):
         if rc != 0:
             raise BuildError("link failed:\n" + out[-3000:])
         os.rename(tmp, exe)
-        shutil.rmtree(objdir, ignore_errors=True)
+        if flavour not in KEEP_OBJ:
+            shutil.rmtree(objdir, ignore_errors=True)
         log("built %s (L=%d) in %.1fs [%s]" % (flavour, L, time.time() - t0, key))
         return exe
 
